@@ -290,178 +290,179 @@ impl Avfx {
 
         let mut avfx = Avfx::default();
 
-        let read_bool = |cursor: &mut Cursor<ByteSpan>| cursor.read_le::<u8>().unwrap() == 1u8;
+        let read_bool =
+            |cursor: &mut Cursor<ByteSpan>| Some(cursor.read_le::<u8>().ok()? == 1u8);
 
-        let read_uint = |cursor: &mut Cursor<ByteSpan>| cursor.read_le::<u32>().unwrap();
+        let read_uint = |cursor: &mut Cursor<ByteSpan>| cursor.read_le::<u32>().ok();
 
-        let read_float = |cursor: &mut Cursor<ByteSpan>| cursor.read_le::<f32>().unwrap();
+        let read_float = |cursor: &mut Cursor<ByteSpan>| cursor.read_le::<f32>().ok();
 
         while cursor.position() < header.size as u64 {
             let last_pos = cursor.position();
-            let block = AvfxBlock::read(&mut cursor).unwrap();
+            let block = AvfxBlock::read(&mut cursor).ok()?;
             match block.data {
                 AvfxData::AvfxBase => {}
                 AvfxData::Version => {
-                    avfx.version = read_uint(&mut cursor);
+                    avfx.version = read_uint(&mut cursor)?;
                 }
                 AvfxData::IsDelayFastParticle => {
-                    avfx.is_delay_fast_particle = read_bool(&mut cursor);
+                    avfx.is_delay_fast_particle = read_bool(&mut cursor)?;
                 }
                 AvfxData::IsFitGround => {
-                    avfx.is_fit_ground = read_bool(&mut cursor);
+                    avfx.is_fit_ground = read_bool(&mut cursor)?;
                 }
                 AvfxData::IsTransformSkip => {
-                    avfx.is_transform_skip = read_bool(&mut cursor);
+                    avfx.is_transform_skip = read_bool(&mut cursor)?;
                 }
                 AvfxData::IsAllStopOnHide => {
-                    avfx.is_all_stop_on_hide = read_bool(&mut cursor);
+                    avfx.is_all_stop_on_hide = read_bool(&mut cursor)?;
                 }
                 AvfxData::CanBeClippedOut => {
-                    avfx.can_be_clipped_out = read_bool(&mut cursor);
+                    avfx.can_be_clipped_out = read_bool(&mut cursor)?;
                 }
                 AvfxData::ClipBoxEnabled => {
-                    avfx.clip_box_enabled = read_bool(&mut cursor);
+                    avfx.clip_box_enabled = read_bool(&mut cursor)?;
                 }
                 AvfxData::ClipBoxX => {
-                    avfx.clip_box[0] = read_float(&mut cursor);
+                    avfx.clip_box[0] = read_float(&mut cursor)?;
                 }
                 AvfxData::ClipBoxY => {
-                    avfx.clip_box[1] = read_float(&mut cursor);
+                    avfx.clip_box[1] = read_float(&mut cursor)?;
                 }
                 AvfxData::ClipBoxZ => {
-                    avfx.clip_box[2] = read_float(&mut cursor);
+                    avfx.clip_box[2] = read_float(&mut cursor)?;
                 }
                 AvfxData::ClipBoxSizeX => {
-                    avfx.clip_box_size[0] = read_float(&mut cursor);
+                    avfx.clip_box_size[0] = read_float(&mut cursor)?;
                 }
                 AvfxData::ClipBoxSizeY => {
-                    avfx.clip_box_size[1] = read_float(&mut cursor);
+                    avfx.clip_box_size[1] = read_float(&mut cursor)?;
                 }
                 AvfxData::ClipBoxSizeZ => {
-                    avfx.clip_box_size[2] = read_float(&mut cursor);
+                    avfx.clip_box_size[2] = read_float(&mut cursor)?;
                 }
                 AvfxData::BiasZmaxScale => {
-                    avfx.bias_z_max_scale = read_float(&mut cursor);
+                    avfx.bias_z_max_scale = read_float(&mut cursor)?;
                 }
                 AvfxData::BiasZmaxDistance => {
-                    avfx.bias_z_max_distance = read_float(&mut cursor);
+                    avfx.bias_z_max_distance = read_float(&mut cursor)?;
                 }
                 AvfxData::IsCameraSpace => {
-                    avfx.is_camera_space = read_bool(&mut cursor);
+                    avfx.is_camera_space = read_bool(&mut cursor)?;
                 }
                 AvfxData::IsFullEnvLight => {
-                    avfx.is_full_env_light = read_bool(&mut cursor);
+                    avfx.is_full_env_light = read_bool(&mut cursor)?;
                 }
                 AvfxData::IsClipOwnSetting => {
-                    avfx.is_clip_own_setting = read_bool(&mut cursor);
+                    avfx.is_clip_own_setting = read_bool(&mut cursor)?;
                 }
                 AvfxData::NearClipBegin => {
-                    avfx.near_clip_begin = read_float(&mut cursor);
+                    avfx.near_clip_begin = read_float(&mut cursor)?;
                 }
                 AvfxData::NearClipEnd => {
-                    avfx.near_clip_end = read_float(&mut cursor);
+                    avfx.near_clip_end = read_float(&mut cursor)?;
                 }
                 AvfxData::FarClipBegin => {
-                    avfx.far_clip_begin = read_float(&mut cursor);
+                    avfx.far_clip_begin = read_float(&mut cursor)?;
                 }
                 AvfxData::FarClipEnd => {
-                    avfx.far_clip_end = read_float(&mut cursor);
+                    avfx.far_clip_end = read_float(&mut cursor)?;
                 }
                 AvfxData::SoftParticleFadeRange => {
-                    avfx.soft_particle_fade_range = read_float(&mut cursor);
+                    avfx.soft_particle_fade_range = read_float(&mut cursor)?;
                 }
                 AvfxData::SoftKeyOffset => {
-                    avfx.soft_key_offset = read_float(&mut cursor);
+                    avfx.soft_key_offset = read_float(&mut cursor)?;
                 }
                 AvfxData::DrawLayerType => {
-                    avfx.draw_layer_type = read_uint(&mut cursor);
+                    avfx.draw_layer_type = read_uint(&mut cursor)?;
                 }
                 AvfxData::DrawOrderType => {
-                    avfx.draw_order_type = read_uint(&mut cursor);
+                    avfx.draw_order_type = read_uint(&mut cursor)?;
                 }
                 AvfxData::DirectionalLightSourceType => {
-                    avfx.directional_light_source_type = read_uint(&mut cursor);
+                    avfx.directional_light_source_type = read_uint(&mut cursor)?;
                 }
                 AvfxData::PointLightsType1 => {
-                    avfx.point_lights_type1 = read_uint(&mut cursor);
+                    avfx.point_lights_type1 = read_uint(&mut cursor)?;
                 }
                 AvfxData::PointLightsType2 => {
-                    avfx.point_lights_type2 = read_uint(&mut cursor);
+                    avfx.point_lights_type2 = read_uint(&mut cursor)?;
                 }
                 AvfxData::RevisedValuesPosX => {
-                    avfx.revised_values_position[0] = read_float(&mut cursor);
+                    avfx.revised_values_position[0] = read_float(&mut cursor)?;
                 }
                 AvfxData::RevisedValuesPosY => {
-                    avfx.revised_values_position[1] = read_float(&mut cursor);
+                    avfx.revised_values_position[1] = read_float(&mut cursor)?;
                 }
                 AvfxData::RevisedValuesPosZ => {
-                    avfx.revised_values_position[2] = read_float(&mut cursor);
+                    avfx.revised_values_position[2] = read_float(&mut cursor)?;
                 }
                 AvfxData::RevisedValuesRotX => {
-                    avfx.revised_values_rotation[0] = read_float(&mut cursor);
+                    avfx.revised_values_rotation[0] = read_float(&mut cursor)?;
                 }
                 AvfxData::RevisedValuesRotY => {
-                    avfx.revised_values_rotation[1] = read_float(&mut cursor);
+                    avfx.revised_values_rotation[1] = read_float(&mut cursor)?;
                 }
                 AvfxData::RevisedValuesRotZ => {
-                    avfx.revised_values_rotation[2] = read_float(&mut cursor);
+                    avfx.revised_values_rotation[2] = read_float(&mut cursor)?;
                 }
                 AvfxData::RevisedValuesScaleX => {
-                    avfx.revised_values_scale[0] = read_float(&mut cursor);
+                    avfx.revised_values_scale[0] = read_float(&mut cursor)?;
                 }
                 AvfxData::RevisedValuesScaleY => {
-                    avfx.revised_values_scale[1] = read_float(&mut cursor);
+                    avfx.revised_values_scale[1] = read_float(&mut cursor)?;
                 }
                 AvfxData::RevisedValuesScaleZ => {
-                    avfx.revised_values_scale[2] = read_float(&mut cursor);
+                    avfx.revised_values_scale[2] = read_float(&mut cursor)?;
                 }
                 AvfxData::RevisedValuesColorR => {
-                    avfx.revised_values_color[0] = read_float(&mut cursor);
+                    avfx.revised_values_color[0] = read_float(&mut cursor)?;
                 }
                 AvfxData::RevisedValuesColorG => {
-                    avfx.revised_values_color[1] = read_float(&mut cursor);
+                    avfx.revised_values_color[1] = read_float(&mut cursor)?;
                 }
                 AvfxData::RevisedValuesColorB => {
-                    avfx.revised_values_color[2] = read_float(&mut cursor);
+                    avfx.revised_values_color[2] = read_float(&mut cursor)?;
                 }
                 AvfxData::FadeEnabledX => {
-                    avfx.fade_enabled_x = read_bool(&mut cursor);
+                    avfx.fade_enabled_x = read_bool(&mut cursor)?;
                 }
                 AvfxData::FadeInnerX => {
-                    avfx.fade_inner[0] = read_float(&mut cursor);
+                    avfx.fade_inner[0] = read_float(&mut cursor)?;
                 }
                 AvfxData::FadeOuterX => {
-                    avfx.fade_outer[0] = read_float(&mut cursor);
+                    avfx.fade_outer[0] = read_float(&mut cursor)?;
                 }
                 AvfxData::FadeEnabledY => {
-                    avfx.fade_enabled_y = read_bool(&mut cursor);
+                    avfx.fade_enabled_y = read_bool(&mut cursor)?;
                 }
                 AvfxData::FadeInnerY => {
-                    avfx.fade_inner[1] = read_float(&mut cursor);
+                    avfx.fade_inner[1] = read_float(&mut cursor)?;
                 }
                 AvfxData::FadeOuterY => {
-                    avfx.fade_outer[1] = read_float(&mut cursor);
+                    avfx.fade_outer[1] = read_float(&mut cursor)?;
                 }
                 AvfxData::FadeEnabledZ => {
-                    avfx.fade_enabled_z = read_bool(&mut cursor);
+                    avfx.fade_enabled_z = read_bool(&mut cursor)?;
                 }
                 AvfxData::FadeInnerZ => {
-                    avfx.fade_inner[2] = read_float(&mut cursor);
+                    avfx.fade_inner[2] = read_float(&mut cursor)?;
                 }
                 AvfxData::FadeOuterZ => {
-                    avfx.fade_outer[2] = read_float(&mut cursor);
+                    avfx.fade_outer[2] = read_float(&mut cursor)?;
                 }
                 AvfxData::GlobalFogEnabled => {
-                    avfx.global_fog_enabled = read_bool(&mut cursor);
+                    avfx.global_fog_enabled = read_bool(&mut cursor)?;
                 }
                 AvfxData::GlobalFogInfluence => {
-                    avfx.global_fog_influence = read_float(&mut cursor);
+                    avfx.global_fog_influence = read_float(&mut cursor)?;
                 }
                 AvfxData::LtsEnabled => {
-                    avfx.lts_enabled = read_bool(&mut cursor);
+                    avfx.lts_enabled = read_bool(&mut cursor)?;
                 }
                 AvfxData::AgsEnabled => {
-                    avfx.ags_enabled = read_bool(&mut cursor);
+                    avfx.ags_enabled = read_bool(&mut cursor)?;
                 }
                 AvfxData::NumSchedulers => {
                     todo!()
@@ -514,7 +515,7 @@ impl Avfx {
             }
             let new_pos = cursor.position();
             let read_bytes = (new_pos - last_pos) - 8;
-            let padding = block.size as u64 - read_bytes;
+            let padding = (block.size as u64).checked_sub(read_bytes)?;
             cursor.seek(SeekFrom::Current(padding as i64)).ok()?;
         }
 
